@@ -205,10 +205,76 @@ pub fn run(run: &Run) {
         run.set_extra(&format!("skeletons_{name}"), json!(skels.len()));
         sweep(run, name, &skels, max, unroll, kinds);
     }
+    // Route B: the graph the real runner builds from a file (with and without main component),
+    // every skeleton of <= 3 statements.
+    let root = crate::infra::work_dir("c13");
+    let small = enumerate(opts("full", 3));
+    run.set_extra("skeletons_via_runner", json!(small.len()));
+    par_each(&small, |i, skel| {
+        let dir = root.join(format!("{:?}", std::thread::current().id()).replace(|c: char| !c.is_ascii_alphanumeric(), ""));
+        let fors: usize = skel.iter().map(|s| s.fors()).sum();
+        for (is_function, with_main, form) in [(true, false, 0), (false, false, 1), (false, true, 0)] {
+            let case = json!({"kind": "skeleton-runner", "index": i, "function": is_function, "main": with_main, "form": form, "unroll": unroll});
+            run.watch(&case);
+            let def = marker_def_for(skel, is_function, Vec::new(), true, vec![form; fors]);
+            let (vs, stats) = check_def_via_runner(&def, unroll, with_main, &dir, &case);
+            run.eval(1);
+            run.add_traces(stats.paths as u64);
+            run.add_transitions(stats.decisions as u64);
+            run.add_states(stats.states as u64);
+            run.violations(vs);
+        }
+    });
+    let _ = std::fs::remove_dir_all(&root);
     run.assume("paths are explored up to the unrolling bound; longer iterations are covered only by the small-scope argument");
 }
 
+pub fn check_def_via_runner(def: &Def, unroll: usize, with_main: bool, dir: &std::path::Path, case: &Value) -> (Vec<Violation>, PathStats) {
+    let printed = print_def(def);
+    let mut stats = PathStats { paths: 0, decisions: 0, states: 0, capped: false };
+    let function = def.kind == crate::space::prog::DefKind::Function;
+    let cfg = match pipe::lift_via_runner(&printed.text, dir, &def.name, function, with_main) {
+        Ok(cfg) => cfg,
+        Err(_) => {
+            return (
+                vec![Violation {
+                    signature: "runner-rejects-program".into(),
+                    what: "a marker program does not lift through the runner".into(),
+                    case: case.clone(),
+                    expected: "a CFG".into(),
+                    observed: printed.text.clone(),
+                }],
+                stats,
+            )
+        }
+    };
+    let mut found: Option<Violation> = None;
+    let result = explore_paths(&def.body, &printed, unroll, 20_000, &mut |walk| {
+        stats.decisions += walk.decisions.len();
+        stats.states += walk.branch_visits + 1;
+        if found.is_none() {
+            found = compare_walk(&cfg, walk, &printed, case, "runner");
+        }
+    });
+    stats.paths = result.unwrap_or(20_000);
+    (found.into_iter().collect(), stats)
+}
+
 pub fn replay(case: &Value) -> Vec<Violation> {
+    if case["kind"].as_str() == Some("skeleton-runner") {
+        let root = crate::infra::work_dir("c13-replay");
+        let skels = enumerate(opts("full", 3));
+        let out = match skels.get(case["index"].as_u64().unwrap_or(0) as usize) {
+            Some(skel) => {
+                let fors: usize = skel.iter().map(|s| s.fors()).sum();
+                let def = marker_def_for(skel, case["function"].as_bool().unwrap_or(true), Vec::new(), true, vec![case["form"].as_u64().unwrap_or(0) as usize; fors]);
+                check_def_via_runner(&def, case["unroll"].as_u64().unwrap_or(2) as usize, case["main"].as_bool().unwrap_or(false), &root, case).0
+            }
+            None => Vec::new(),
+        };
+        let _ = std::fs::remove_dir_all(&root);
+        return out;
+    }
     let max = case["max_stmts"].as_u64().unwrap_or(5) as usize;
     let index = case["index"].as_u64().unwrap_or(0) as usize;
     let is_function = case["function"].as_bool().unwrap_or(true);
